@@ -166,3 +166,51 @@ func H_C05_lua() {
 	}
 	VReach("end")
 }
+
+// C05.escaped — a closure that escapes from a failed protected call keeps its captured variables, whatever
+// the protected call's handler does (none, returns, raises, faults), and the caller's registers are not
+// aliased by it afterwards ("the caller's locals and upvalues ... and all later behaviour are what they would
+// have been").  Round-5 seeded change C05-handler-error-upvalues-open: the upvalues of the failed call stayed
+// open when xpcall's handler itself failed.
+//
+//verif:harness prop=C05 tier=quick bounds="3 bodies (capture in the failing function / inside a loop block / in a callee one frame deeper) x 7 protections (pcall, xpcall with a returning / raising / faulting handler, pcall around such an xpcall, pcall behind an extra Lua frame, Go-side PCall with a raising Go handler); captured values and error payload symbolic float64; the closure is read, written and read again after the caller's registers were reused"
+func H_C05_escaped() {
+	L := newL(Options{}, BaseLibName)
+	x, y := VFloat("x"), VFloat("y")
+	L.G.Global.RawSetString("x", LNumber(x))
+	L.G.Global.RawSetString("y", LNumber(y))
+	L.G.Global.RawSetString("gopcall", L.NewFunction(func(L *LState) int {
+		// a Go-side protected call whose Go handler raises
+		L.Push(L.Get(1))
+		err := L.PCall(0, 0, L.NewFunction(func(L *LState) int { L.RaiseError("handler failed"); return 0 }))
+		L.Push(LBool(err == nil))
+		return 1
+	}))
+	bodies := []string{
+		"local function body() local u, v = x, y; get = function() return u, v end; set = function(a) u = a end; error(x) end",
+		"local function body() for i = 1, 2 do local u, v = x, y; get = function() return u, v end; set = function(a) u = a end; error(x) end end",
+		"local function inner(w) local u, v = x, w; get = function() return u, v end; set = function(a) u = a end; error(x) end local function body() local pad1, pad2 = 1, 2; inner(y) end",
+	}
+	protects := []string{
+		"pcall(body)",
+		"xpcall(body, function(e) return e end)",
+		"xpcall(body, function(e) error(e) end)",
+		"xpcall(body, function(e) local q = nil; return q.f end)",
+		"select(2, pcall(xpcall, body, function(e) error(e) end))",
+		"pcall(function() local z1, z2, z3 = 1, 2, 3; body(); return z1 end)",
+		"gopcall(body)",
+	}
+	b := VChoice(len(bodies))
+	p := VChoice(len(protects))
+	src := bodies[b] + "; local ok = " + protects[p] + "; local a, b, c, d = 1, 2, 3, 4; local r1, r2 = get(); set(y); local r3 = get(); " +
+		"local function churn(p, q, r) local s, t = p + q, q + r; return s + t end; local ch = churn(1, 2, 3); local r4, r5 = get(); " +
+		"return ok, r1, r2, r3, r4, r5, a + b * 10 + c * 100 + d * 1000, ch"
+	err := loadRun(L, src, 8)
+	VAssert(err == nil, "escaped: nothing escapes the protected call")
+	VAssert(L.Get(1) == LFalse, "escaped: the protected call reports failure")
+	VAssert(sameValue(L.Get(2), LNumber(x)) && sameValue(L.Get(3), LNumber(y)), "escaped: the closure still sees the values its variables had when the call failed")
+	VAssert(sameValue(L.Get(4), LNumber(y)), "escaped: a write through one escaped closure is seen by the other")
+	VAssert(sameValue(L.Get(5), LNumber(y)) && sameValue(L.Get(6), LNumber(y)), "escaped: the captured variables survive reuse of the failed call's registers")
+	VAssert(L.Get(7) == LNumber(4321) && L.Get(8) == LNumber(8), "escaped: the caller's later locals are not aliased by the escaped closure")
+	VReach("end")
+}
